@@ -2,6 +2,7 @@
 //! functions, in-process.  Scores travel as IEEE bit patterns (16 hex digits) so that -0.0, NaN
 //! payloads and adjacent floats are exact; the check maps them to the model's order key.
 //!
+//!   parse <text>                    the handlers' score parser -> bits | bad
 //!   sl new                          fresh skip list
 //!   sl ins <member> <bits>          insert -> old=<bits|none> <dump>
 //!   sl rem <member>                 remove -> old=<bits|none> <dump>
@@ -64,6 +65,11 @@ fn res<T>(r: ferrous::error::Result<T>, f: impl FnOnce(T) -> String) -> String {
 fn step(st: &mut St, ws: &[&str]) -> String {
     let bad = || "bad-op".to_string();
     match ws {
+        // `String::from_utf8_lossy(bytes).parse::<f64>()` exactly as the handlers read a score argument
+        ["parse", h] => match of_hex(h) {
+            Some(b) => match String::from_utf8_lossy(&b).parse::<f64>() { Ok(v) => show_score(v), Err(_) => "bad".into() },
+            None => bad(),
+        },
         ["sl", "new"] => { st.sl = SkipList::new(); "ok".into() }
         ["sl", "ins", m, s] => match (of_hex(m), bits(s)) {
             (Some(m), Some(s)) => { let old = st.sl.insert(m, s); format!("old={} {}", show_opt(old), dump(&st.sl)) }
